@@ -105,3 +105,193 @@ def c01_oracle(case, r):
         if exp.get(path) and not force and n > 0:
             hits.append(("disabled-test-executed", "disabled test %s was executed without --force-disabled" % path))
     return hits
+
+
+# ---------------------------------------------------------------------------------------------- C03
+LOC_OF_KIND = {"TestTask": 4, "SuiteInitializationTask": 2, "TestSessionSetupTask": 0, "SuiteTeardownTask": 3,
+               "TestSessionTeardownTask": 1}
+
+
+def _fixture_index(pd):
+    return {f["name"]: f for f in pd.get("fixtures", [])}
+
+
+def _closure(fx, names):
+    out, todo = [], list(names)
+    while todo:
+        n = todo.pop()
+        if n in out or n not in fx:
+            continue
+        out.append(n)
+        todo += [p for p in fx[n]["params"] if p != "fixture_name"]
+    return set(out)
+
+
+def needed_fixtures(pd, force):
+    """Fixtures that some enabled (or forced) scheduled test needs, directly or not."""
+    fx = _fixture_index(pd)
+    direct = set()
+    for path, s, dis in walk_suites(pd):
+        tests = s.get("tests", [])
+        enabled = [t for t in tests if force or not (dis or t.get("disabled"))]
+        if not enabled:
+            continue
+        for t in enabled:
+            direct |= {a for a in t["args"] if a not in t.get("params", {})}
+        direct |= set(s.get("injected") or [])
+        ss = (s.get("hooks") or {}).get("setup_suite")
+        if ss:
+            direct |= set(ss["args"])
+    return _closure(fx, direct)
+
+
+def c03_oracle(case, r):
+    hits = []
+    if (r.get("outcome") or ["?"])[0] != "returned":
+        return hits        # C01's business
+    pd, trace = case["project"], r.get("trace") or []
+    force = bool(case.get("options", {}).get("force_disabled"))
+    fx = _fixture_index(pd)
+    cur = {}                      # thread -> current task label (tuple)
+    owner = {}                    # user thread name -> task label
+    failed_locs = set()
+    setups = {}                   # value -> dict(name, task, idx, clean)
+    setup_count = {}
+    teardowns = {}                # value -> [idx]
+    uses = []                     # (idx, tag, fixture, value, task)
+    finishes = {}                 # task label -> idx
+    results = {}
+    bodies = {}                   # test path -> idx
+    hooks = []                    # (idx, begin/end, kind, path, task)
+    phase_td_order = {}           # task label -> [values in teardown order]
+    for i, a in enumerate(trace):
+        th, op = a[0], a[1]
+        task = cur.get(th, owner.get(th))
+        if op == "take":
+            cur[th] = tuple(a[3])
+        elif op == "finish":
+            finishes[tuple(a[2])] = i
+            results[tuple(a[2])] = a[3][0]
+            cur.pop(th, None)
+        elif op == "spawn":
+            owner[a[4]] = task
+        elif op == "flag" and a[2] == "failure":
+            failed_locs.add((a[3][0], a[3][1]))
+        elif op == "fx_setup_begin":
+            key = (a[2], task)
+            setup_count[key] = setup_count.get(key, 0) + 1
+            if setup_count[key] > 1:
+                hits.append(("fixture-evaluated-twice", "fixture %s evaluated twice in %s" % (a[2], task)))
+        elif op == "fx_setup_end":
+            loc = (LOC_OF_KIND.get(task[0]), task[1]) if task else None
+            setups[a[3]] = {"name": a[2], "task": task, "idx": i, "clean": loc not in failed_locs}
+        elif op == "fx_teardown_begin":
+            teardowns.setdefault(a[3], []).append(i)
+            phase_td_order.setdefault(task, []).append(a[3])
+        elif op == "use":
+            uses.append((i, a[2], a[3], a[4], task))
+        elif op == "body_begin":
+            bodies[a[2]] = i
+        elif op in ("hook_begin", "hook_end"):
+            hooks.append((i, op, a[2], a[3], task))
+    needed = needed_fixtures(pd, force)
+    test_finishes = {lab[1]: idx for lab, idx in finishes.items() if lab[0] == "TestTask"}
+    for v, s in setups.items():
+        f = fx.get(s["name"])
+        if f is None:
+            continue
+        if s["name"] not in needed:
+            hits.append(("unneeded-fixture-evaluated", "fixture %s is needed by no enabled scheduled test but was evaluated" % s["name"]))
+        td = teardowns.get(v, [])
+        if len(td) > 1:
+            hits.append(("fixture-torn-down-twice", "fixture %s torn down %d times" % (s["name"], len(td))))
+        if f["generator"] and s["clean"] and len(td) == 0:
+            hits.append(("fixture-never-torn-down", "fixture %s (scope %s) was set up without failure in %s but never torn down" % (
+                s["name"], f["scope"], s["task"])))
+        if td:
+            # after the last consumer finished
+            if f["scope"] == "suite" and s["task"]:
+                spath = s["task"][1]
+                late = [p for p, idx in test_finishes.items() if p.rsplit(".", 1)[0] == spath and idx > td[0]]
+            elif f["scope"] in ("session", "pre_run"):
+                late = [p for p, idx in test_finishes.items() if idx > td[0]]
+            else:
+                late = []
+            if late:
+                hits.append(("fixture-torn-down-before-consumer-finished",
+                             "fixture %s (scope %s) torn down before %s finished" % (s["name"], f["scope"], late[0])))
+    for i, tag, name, v, task in uses:
+        n = name[4:] if name.startswith("inj:") else name
+        if n not in fx:
+            continue
+        if v == "<absent>" or v not in setups:
+            hits.append(("consumer-got-no-value", "%s received no value for fixture %s" % (tag, n)))
+            continue
+        s = setups[v]
+        if s["name"] != n:
+            hits.append(("consumer-got-wrong-fixture", "%s asked %s and received the value of %s" % (tag, n, s["name"])))
+        if s["idx"] > i:
+            hits.append(("fixture-used-before-setup", "%s used %s before its setup completed" % (tag, n)))
+        if any(t < i for t in teardowns.get(v, [])):
+            hits.append(("fixture-used-after-teardown", "%s used %s after it was torn down" % (tag, n)))
+        scope = fx[n]["scope"]
+        if scope == "test" and task and s["task"] != task:
+            hits.append(("consumer-got-foreign-instance", "%s received the test-scope value of another test for %s" % (tag, n)))
+        if scope == "suite" and task and s["task"] and task[0] == "TestTask" and s["task"][1] != task[1].rsplit(".", 1)[0]:
+            hits.append(("consumer-got-foreign-instance", "%s received the suite-scope value of another suite for %s" % (tag, n)))
+    # reverse order inside one teardown phase / one test
+    for task, order in phase_td_order.items():
+        idx = [setups[v]["idx"] for v in order if v in setups]
+        if idx != sorted(idx, reverse=True):
+            hits.append(("teardown-not-reverse-order", "teardowns in %s are not in reverse order of setup" % (task,)))
+    # inner scopes before outer
+    def first_td(scope):
+        l = [min(teardowns[v]) for v, s in setups.items() if v in teardowns and fx.get(s["name"], {}).get("scope") == scope]
+        return min(l) if l else None
+
+    def last_td(scope):
+        l = [max(teardowns[v]) for v, s in setups.items() if v in teardowns and fx.get(s["name"], {}).get("scope") == scope]
+        return max(l) if l else None
+    for inner, outer in (("test", "suite"), ("suite", "session"), ("session", "pre_run")):
+        a, b = last_td(inner), first_td(outer)
+        if a is not None and b is not None and inner != "test" and a > b:
+            hits.append(("outer-scope-torn-down-first", "a %s-scope fixture was torn down before a %s-scope one" % (outer, inner)))
+    # setup failure: consumers not executed
+    for lab, res in results.items():
+        if lab[0] == "SuiteInitializationTask" and res == "failure":
+            for p in bodies:
+                if p.rsplit(".", 1)[0] == lab[1]:
+                    hits.append(("body-executed-after-suite-setup-failure", "test %s executed although the setup of its suite failed" % p))
+        if lab[0] == "TestSessionSetupTask" and res == "failure" and bodies:
+            hits.append(("body-executed-after-session-setup-failure", "a test was executed although the session setup failed"))
+    # hooks: teardown_suite exactly once, after the suite's tests, whenever the suite setup phase completed cleanly
+    for path, s, dis in walk_suites(pd):
+        hk = s.get("hooks") or {}
+        tests = s.get("tests", [])
+        active = force or any(not (dis or t.get("disabled")) for t in tests)
+        begins = [h for h in hooks if h[1] == "hook_begin" and h[2] == "teardown_suite" and h[3] == path]
+        sbegins = [h for h in hooks if h[1] == "hook_begin" and h[2] == "setup_suite" and h[3] == path]
+        sends = [h for h in hooks if h[1] == "hook_end" and h[2] == "setup_suite" and h[3] == path]
+        if len(begins) > 1 or len(sbegins) > 1:
+            hits.append(("suite-hook-executed-twice", "a suite hook of %s was executed more than once" % path))
+        init_res = results.get(("SuiteInitializationTask", path))
+        if hk.get("teardown_suite") is not None and active and init_res == "success" and len(begins) == 0:
+            hits.append(("teardown-suite-never-executed", "teardown_suite of %s was never executed although its setup phase succeeded" % path))
+        for h in begins:
+            late = [p for p, idx in test_finishes.items() if p.rsplit(".", 1)[0] == path and idx > h[0]]
+            if late:
+                hits.append(("teardown-suite-before-test-finished", "teardown_suite of %s ran before %s finished" % (path, late[0])))
+            init_fin = finishes.get(("SuiteInitializationTask", path))
+            if init_fin is not None and init_fin > h[0]:
+                hits.append(("teardown-suite-before-setup", "teardown of suite %s ran before its setup" % path))
+        for h in sbegins:
+            early = [p for p, idx in bodies.items() if p.rsplit(".", 1)[0] == path and idx < h[0]]
+            if early:
+                hits.append(("test-before-setup-suite", "test %s started before setup_suite of %s" % (early[0], path)))
+    # de-duplicate by signature
+    seen, out = set(), []
+    for sig, text in hits:
+        if sig not in seen:
+            seen.add(sig)
+            out.append((sig, text))
+    return out
